@@ -15,7 +15,8 @@ EXPLANATION = (
     "CRC-verified header and reads the body with read_exact; the records iterator ends only on that 0; (R4) index readers "
     "(BAI, CSI, tabix, gzi, crai, fai): no raw read() at all — every element goes through read_exact-based helpers — and "
     "every count that sizes a loop or allocation is converted with try_from; (R5) the only io::Result matches that turn an "
-    "error into a success are the tabled EOF conversions (C14.R1b).")
+    "error into a success are the tabled EOF conversions (C14.R1b)."
+    " R1 also covers the eager BCF reader (genuine defect F25, repaired; the site had been mis-triaged as safe in the error-to-success table); (R6) the bgzf read_nonempty_block_with returns a nonzero length only for a block read by that call, so the direct-read path cannot report bytes it did not produce at the end of a stream without EOF block (genuine defect F26, repaired).")
 ASSUMPTIONS = ["read_exact reports UnexpectedEof on a short source (std/tokio contract)",
                "the 'never panics' clause is C15's inventory restricted to these readers"]
 NOT_DECIDED = ["that the records yielded before the error equal the originally written prefix (needs values)",
@@ -43,6 +44,39 @@ def run(ctx):
             ctx.violation("C13.R1", "C13.R1/no-read_exact/" + key, "%s no longer reads the record body with read_exact" % key, f.loc())
         else:
             ctx.ok("C13.R1", key + " reads the body with read_exact (%d site(s))" % len(rx), "", f.loc())
+
+    # the eager BCF reader obtains its length prefix through the same nothing-or-everything helper (it used to map UnexpectedEof to
+    # Ok(0): genuine defect F25 — which this suite had mis-triaged as "0 bytes = EOF" in its error-to-success table)
+    R.must_pass(ctx, "C13.R1", "noodles_bcf::io::reader::record_buf::read_record_buf", r"noodles_bcf::io::reader::record::read_exact_or_eof$",
+                "the eager BCF reader reads the l_shared prefix through read_exact_or_eof (partial prefix = UnexpectedEof)")
+
+    ctx.rule("C13.R6", "A3 no fabricated bytes at end of stream: bgzf read_nonempty_block_with returns a nonzero length only for a block this call "
+                       "read (the direct-read path hands that length to the caller as the number of bytes produced)")
+    fnb = ctx.anchor("C13.R6", "noodles_bgzf::io::reader::Reader::<R>::read_nonempty_block_with")
+    if fnb is not None:
+        sws = [(sb, tt, ft) for sb, tt, ft, c in R.switch_on_call(fnb, r"option::Option::<T>::is_some$")
+               if any(R.derives_from_call(fnb, a_, R.mk_pred(r"frame::read_frame_into$")) for a_ in c["args"])]
+        if not sws:
+            ctx.violation("C13.R6", "C13.R6/ANCHOR-MISSING/%s/loop" % fnb.key, "read_nonempty_block_with no longer loops on read_frame_into(..).is_some()", fnb.loc())
+        else:
+            reach = C.reachable(fnb, 0, removed_edges={(sb, tt) for sb, tt, ft in sws})
+            bad = None
+            for bi in sorted(reach):
+                blk = fnb.blocks[bi]
+                if blk.get("cu"):
+                    continue
+                for st in blk["s"]:
+                    if st[0] == "=" and st[1][0] == 0 and not st[1][1] and st[2][0] == "agg" and st[2][3] == "Ok":
+                        v = C.eval_const(fnb, st[2][4][0]) if st[2][4] else None
+                        if v != 0:
+                            bad = bi
+            if bad is None:
+                ctx.ok("C13.R6", fnb.key + " :: Ok(n > 0) only after a frame was read in this call", "the end-of-stream exit returns the constant 0", fnb.loc())
+            else:
+                ctx.violation("C13.R6", "C13.R6/stale-length-at-eof/" + fnb.key,
+                              "read_nonempty_block_with returns a non-constant length on the path where no frame was read (end of stream): the "
+                              "direct-read path reports the PREVIOUS block's length as bytes produced without writing them, on every call",
+                              fnb.loc(bad))
 
     ctx.rule("C13.R2", "A4 a torn block cannot pass as data: BGZF and CRAM integrity guards (re-decided)")
     FR = "noodles_bgzf::io::reader::frame::"
